@@ -21,8 +21,48 @@ Lemma shift_lits :
 Proof. repeat split; reflexivity. Qed.
 
 (* ---------- fastReduction ---------- *)
-Lemma mul32_lt a b : a < two32 -> b < two32 -> a * b < two64.
-Proof. unfold two32, two64. intros. nia. Qed.
+Lemma w64_small x : x < two64 -> w64 x = x.
+Proof. intros. apply N.mod_small. assumption. Qed.
+
+Definition K32 : N := 18446744065119617025.
+
+Lemma mul32_le a b : a < two32 -> b < two32 -> a * b <= K32.
+Proof. unfold two32, K32. intros. Timeout 30 nia. Qed.
+
+Lemma fr_core s p q r : s <= K32 -> p <= K32 -> q <= K32 -> r <= K32 ->
+  w64 (w64 (w64 (s + p / two32) + q / two32)
+       + (w64 (w64 (lo32 p + lo32 q) + r / two32)) / two32)
+  = (s * two64 + (p + q) * two32 + r) / two64.
+Proof.
+  intros Hs Hp Hq Hr. unfold lo32.
+  pose proof (N.div_mod p two32) as Ep. pose proof (N.mod_lt p two32) as Lp.
+  pose proof (N.div_mod q two32) as Eq. pose proof (N.mod_lt q two32) as Lq.
+  pose proof (N.div_mod r two32) as Er. pose proof (N.mod_lt r two32) as Lr.
+  remember (p / two32) as p1. remember (p mod two32) as p0.
+  remember (q / two32) as q1. remember (q mod two32) as q0.
+  remember (r / two32) as r1. remember (r mod two32) as r0.
+  clear Heqp1 Heqp0 Heqq1 Heqq0 Heqr1 Heqr0.
+  unfold two32, K32 in *.
+  specialize (Ep ltac:(lia)). specialize (Lp ltac:(lia)).
+  specialize (Eq ltac:(lia)). specialize (Lq ltac:(lia)).
+  specialize (Er ltac:(lia)). specialize (Lr ltac:(lia)).
+  assert (Hp1 : p1 <= 4294967294) by lia.
+  assert (Hq1 : q1 <= 4294967294) by lia.
+  assert (Hr1 : r1 <= 4294967294) by lia.
+  rewrite (w64_small (p0 + q0)) by (unfold two64; lia).
+  rewrite (w64_small (p0 + q0 + r1)) by (unfold two64; lia).
+  pose proof (N.div_mod (p0 + q0 + r1) 4294967296 ltac:(lia)) as Et.
+  pose proof (N.mod_lt (p0 + q0 + r1) 4294967296 ltac:(lia)) as Lt.
+  remember ((p0 + q0 + r1) / 4294967296) as c. remember ((p0 + q0 + r1) mod 4294967296) as t0.
+  clear Heqc Heqt0.
+  assert (Hc : c <= 2) by lia.
+  rewrite (w64_small (s + p1)) by (unfold two64; lia).
+  rewrite (w64_small (s + p1 + q1)) by (unfold two64; lia).
+  rewrite (w64_small (s + p1 + q1 + c)) by (unfold two64; lia).
+  apply N.div_unique with (r := t0 * 4294967296 + r0); unfold two64; lia.
+Qed.
+
+Lemma K32_lt : K32 < two64. Proof. reflexivity. Qed.
 
 Lemma fast_reduction_halves a b c d :
   a < two32 -> b < two32 -> c < two32 -> d < two32 ->
@@ -31,22 +71,17 @@ Proof.
   intros Ha Hb Hc Hd.
   unfold fast_reduction. destruct fr_lits as (-> & -> & -> & -> & ->).
   rewrite !N.shiftr_div_pow2. change (2 ^ 32) with two32.
-  assert (Ea : (a * two32 + b) / two32 = a) by (unfold two32 in *; lia).
-  assert (Eb : lo32 (a * two32 + b) = b) by (unfold lo32, two32 in *; lia).
+  assert (Ea : (a * two32 + b) / two32 = a).
+  { symmetry. apply N.div_unique with (r := b); [assumption | lia]. }
+  assert (Eb : lo32 (a * two32 + b) = b).
+  { unfold lo32. symmetry. apply N.mod_unique with (q := a); [assumption | lia]. }
   rewrite Ea, Eb.
-  pose proof (mul32_lt a c Ha Hc) as Hac. pose proof (mul32_lt a d Ha Hd) as Had.
-  pose proof (mul32_lt c b Hc Hb) as Hcb. pose proof (mul32_lt b d Hb Hd) as Hbd.
-  replace ((a * two32 + b) * (c * two32 + d)) with (a * c * two64 + (a * d + c * b) * two32 + b * d)
-    by (unfold two64, two32; ring).
-  assert (Hac' : a * c <= 18446744065119617025) by (unfold two32 in *; nia).
-  assert (Had' : a * d <= 18446744065119617025) by (unfold two32 in *; nia).
-  assert (Hcb' : c * b <= 18446744065119617025) by (unfold two32 in *; nia).
-  assert (Hbd' : b * d <= 18446744065119617025) by (unfold two32 in *; nia).
-  generalize dependent (a * c). generalize dependent (a * d).
-  generalize dependent (c * b). generalize dependent (b * d).
-  intros bd _ Hbd cb _ Hcb ad _ Had ac _ Hac.
-  unfold w64, lo32, two64, two32 in *.
-  lia.
+  pose proof (mul32_le a c Ha Hc) as Hac. pose proof (mul32_le a d Ha Hd) as Had.
+  pose proof (mul32_le c b Hc Hb) as Hcb. pose proof (mul32_le b d Hb Hd) as Hbd.
+  pose proof K32_lt as HK.
+  rewrite (w64_small (a * c)), (w64_small (a * d)), (w64_small (c * b)), (w64_small (b * d)) by lia.
+  rewrite fr_core by assumption.
+  f_equal. unfold two64, two32. ring.
 Qed.
 
 Theorem fast_reduction_spec v n :
@@ -54,21 +89,29 @@ Theorem fast_reduction_spec v n :
   fast_reduction v (N.shiftr n 32) (lo32 n) = v * n / two64.
 Proof.
   intros Hv Hn.
-  rewrite N.shiftr_div_pow2. change (2 ^ 32) with two32.
-  pose proof (N.div_mod v two32) as Ev. pose proof (N.div_mod n two32) as En.
-  assert (Hvh : v / two32 < two32) by (unfold two32, two64 in *; lia).
-  assert (Hnh : n / two32 < two32) by (unfold two32, two64 in *; lia).
-  assert (Hvl : v mod two32 < two32) by (unfold two32; lia).
-  assert (Hnl : n mod two32 < two32) by (unfold two32; lia).
+  rewrite N.shiftr_div_pow2. change (2 ^ 32) with two32. unfold lo32.
+  assert (Hvh : v / two32 < two32) by (apply N.div_lt_upper_bound; [discriminate | exact Hv]).
+  assert (Hnh : n / two32 < two32) by (apply N.div_lt_upper_bound; [discriminate | exact Hn]).
+  assert (Hvl : v mod two32 < two32) by (apply N.mod_lt; discriminate).
+  assert (Hnl : n mod two32 < two32) by (apply N.mod_lt; discriminate).
   pose proof (fast_reduction_halves (v / two32) (v mod two32) (n / two32) (n mod two32) Hvh Hvl Hnh Hnl) as H.
-  replace (v / two32 * two32 + v mod two32) with v in H by (unfold two32 in *; lia).
-  replace (n / two32 * two32 + n mod two32) with n in H by (unfold two32 in *; lia).
-  exact H.
+  assert (Ev : v / two32 * two32 + v mod two32 = v).
+  { rewrite N.mul_comm. symmetry. apply N.div_mod. discriminate. }
+  assert (En : n / two32 * two32 + n mod two32 = n).
+  { rewrite N.mul_comm. symmetry. apply N.div_mod. discriminate. }
+  rewrite Ev, En in H. exact H.
 Qed.
 
-Lemma fast_reduction_lt v n : v < two64 -> n < two64 -> 0 < n ->
-  fast_reduction v (N.shiftr n 32) (lo32 n) < n.
+Lemma fast_reduction_lt v n : v < two64 -> n < two64 ->
+  fast_reduction v (N.shiftr n 32) (lo32 n) < two64 /\ (0 < n -> fast_reduction v (N.shiftr n 32) (lo32 n) < n).
 Proof.
-  intros Hv Hn Hpos. rewrite fast_reduction_spec by assumption.
-  apply N.div_lt_upper_bound; [unfold two64; lia|]. unfold two64 in *. nia.
+  intros Hv Hn. rewrite fast_reduction_spec by assumption.
+  assert (Hlt : v * n < two64 * n \/ n = 0).
+  { destruct (N.eq_dec n 0); [right; assumption | left]. apply N.mul_lt_mono_pos_r; lia. }
+  split.
+  - apply N.div_lt_upper_bound; [discriminate|].
+    destruct Hlt as [Hlt | ->]; [| rewrite N.mul_0_r; reflexivity].
+    eapply N.lt_trans; [exact Hlt|]. apply N.mul_lt_mono_pos_l; [reflexivity | exact Hn].
+  - intros Hpos. apply N.div_lt_upper_bound; [discriminate|].
+    destruct Hlt as [Hlt | ->]; [exact Hlt | lia].
 Qed.
